@@ -141,7 +141,16 @@ class TaskExecutionRegistration(Registration):
 
     def processResults(self, results: TaskExecutionResult):
         """Queue resultant observations to be saved to the database and record sensor changes."""
-        self._registrant.saveObservations(results.observations)
+        # [NOTE]: A sensor tasked to several targets in one step can observe the same target as the
+        #   primary target of one task and in the background of another one. Only a single
+        #   observation per sensor/target pair is kept, otherwise it would be double counted.
+        observed = {(ob.sensor_id, ob.target_id) for ob in self._registrant.observations}
+        new_observations = []
+        for observation in results.observations:
+            if (pair := (observation.sensor_id, observation.target_id)) not in observed:
+                observed.add(pair)
+                new_observations.append(observation)
+        self._registrant.saveObservations(new_observations)
         self._registrant.saveMissedObservations(results.missed_observations)
         self._registrant.updateFromAsyncTaskExecution(results.sensor_info_list)
 
